@@ -141,7 +141,7 @@ class VectorialParameterNodeAtInstant:
     def __getattr__(self, attribute):
         result = getattr(self.vector, attribute)
         if isinstance(result, numpy.recarray):
-            return VectorialParameterNodeAtInstant(result)
+            return self.__class__(self._name, result, self._instant_str)
         return result
 
     def __getitem__(self, key):
